@@ -1,6 +1,7 @@
 """C14 — note iteration: round trip of encoded note sequences, reference walk on garbage, zero alignment, name_str."""
 from gen import *
 import vlib, elfgen
+import props.C09 as C09
 
 LEVEL = "proof"
 RULE = ("0..20 notes with namesz/descsz 0..40 (every residue, header-only records; a boundary block where the last record ends exactly at the end of the data), GNU ABI-tag/build-id/other GNU types, align in {1,2,4,8,16} and "
@@ -135,7 +136,7 @@ def gen(rng, tier):
                             ne = base + 12 + len(last[1])
                             ds = ne + (align - ne % align) % align
                             dd = full[:ds + len(last[2])]
-                        c = "notes %s %d %d %s | all | nexts %d" % (spec, cl, align, hx(dd), npre + 3)
+                        c = "notes %s %d %d %s | all | nexts %d | %s" % (spec, cl, align, hx(dd), npre + 3, C09.walk_script(rng, npre))
                         _info[c] = (little, cl, align, dd)
                         cases.append(c)
     # through sections / segments of files
